@@ -819,6 +819,49 @@ pub fn strategy() -> BoxedStrategy<Scenario> {
         .boxed()
 }
 
+/// Clamp a structurally decoded scenario into the generator's domain (fuzz tier).
+pub fn fuzz_sanitize(sc: &mut Scenario) -> bool {
+    sc.nhosts = 2 + sc.nhosts % 3;
+    sc.tick_ms = 1 + sc.tick_ms % 3;
+    sc.lat_min %= 7;
+    sc.lat_max = sc.lat_min + sc.lat_max % 11;
+    sc.capacity = if sc.capacity % 4 == 0 { 64 } else { sc.capacity % 4 };
+    sc.strict_known = false;
+    let fix_dest = |d: &mut Dest| match d {
+        Dest::Host(h, p) => {
+            *h %= 4;
+            *p %= 3;
+        }
+        Dest::Own(p) | Dest::Loopback(p) | Dest::Broadcast(p) => *p %= 3,
+        Dest::Multicast(g, p) => {
+            *g %= 2;
+            *p %= 3;
+        }
+    };
+    for o in sc.ops.iter_mut() {
+        o.step = 1 + o.step % 29;
+        o.host %= 4;
+        o.slot %= 3;
+        match &mut o.kind {
+            OpKind::Bind { port, pause, .. } => {
+                *port = port.map(|p| p % 3);
+                *pause %= 6;
+            }
+            OpKind::Send { dest, .. } => fix_dest(dest),
+            OpKind::Connect(d) => fix_dest(d),
+            OpKind::Join(g) | OpKind::Leave(g) => *g %= 2,
+            _ => {}
+        }
+    }
+    // every host gets a wildcard socket on a common port first, as in the generator
+    let mut ops: Vec<Op> = (0..sc.nhosts)
+        .map(|h| Op { step: 1, host: h, slot: 0, kind: OpKind::Bind { localhost: false, port: Some(0), mode: RecvMode::RecvFrom, buf: 40, pause: 0 } })
+        .collect();
+    ops.extend(sc.ops.drain(..));
+    sc.ops = ops;
+    true
+}
+
 fn check(tier: Tier, seed: u64) -> i32 {
     let ctx = Ctx::new("C09", tier, seed, "exploration");
     ctx.replay_corpus(&replay);
